@@ -44,6 +44,7 @@ def gen_seq(rng, quick):
     noise = he or rng.random() < 0.3
     cache = rng.randint(1, 4)
     use_tr = rng.random() < 0.4
+    reuse = rng.random() < 0.35
     alpha = [rng.sample([-1.0, -0.5, 0.0, 0.25, 0.5, 1.0], rng.randint(2, 4)) for _ in range(D)]
     n = rng.randint(5, 60 if quick else 400)
     pts = []
@@ -93,7 +94,7 @@ def gen_seq(rng, quick):
             else:
                 out = {"k": "scalar", "y": y}
         ops.append({"op": "call", "x": x, "out": out, "rd": rng.random() < 0.75})
-    return {"D": D, "he": he, "noise": noise, "cache": cache, "use_tr": use_tr, "ops": ops}
+    return {"D": D, "he": he, "noise": noise, "cache": cache, "use_tr": use_tr, "reuse": reuse, "ops": ops}
 
 
 def run_impl(seq, rng):
@@ -101,10 +102,13 @@ def run_impl(seq, rng):
     from pybads.function_logger import FunctionLogger
     from pybads.variable_transformer import VariableTransformer
     D = seq["D"]
-    vt = None
+    vt = vt_ref = None
     if seq["use_tr"]:
         vt = VariableTransformer(D, np.full((1, D), -2.0), np.full((1, D), 6.0), np.full((1, D), -1.0), np.full((1, D), 3.0))
+        # the harness computes the expected original-space point with its OWN transformer instance (the logger's one is left alone)
+        vt_ref = VariableTransformer(D, np.full((1, D), -2.0), np.full((1, D), 6.0), np.full((1, D), -1.0), np.full((1, D), 3.0))
     q = []
+    work = np.zeros(D)          # seq["reuse"]: the caller keeps ONE working array and overwrites it in place between operations
 
     def fun(xo):
         v = q.pop(0)
@@ -116,8 +120,11 @@ def run_impl(seq, rng):
     res = []
     for op in seq["ops"]:
         x = np.array(op["x"], dtype=float)
-        xo = vt.inverse_transf(np.atleast_2d(x))[0] if vt is not None else x
+        xo = vt_ref.inverse_transf(np.atleast_2d(x.copy()))[0] if vt_ref is not None else x
         op["xo"] = [float(v) for v in xo]
+        if seq.get("reuse"):
+            work[:] = x
+            x = work
         try:
             if op["op"] == "call":
                 q[:] = [py_outcome(op["out"], rng)]
@@ -290,7 +297,7 @@ def clauses(seq, impl, rep, tag):
 
 
 def seq_json(seq):
-    d = {k: seq[k] for k in ("D", "he", "noise", "cache", "use_tr")}
+    d = {k: seq.get(k) for k in ("D", "he", "noise", "cache", "use_tr", "reuse")}
     d["ops"] = [{k: v for k, v in op.items()} for op in seq["ops"]]
     return d
 
